@@ -534,6 +534,14 @@ func check(id, tier string) int {
 	return aggregate(cfg, tier, seed, b, outs, start, buildS)
 }
 
+// simulatedTime says what stands for time in this check's evidence.
+func simulatedTime(cfg *propCfg, stats map[string]int64) string {
+	if cfg.Cost {
+		return fmt.Sprintf("%d ticks of the compiled-in work counter (one tick = one function call or loop iteration of the seven packages of the tree and of the parse module; copy/append/make charged per 8 elements) spent inside %d scaling probes; no wall clock is consulted by the oracle", stats["simulated_ticks"], stats["entry_scaling_probe"])
+	}
+	return "none: this property does not depend on a clock; reach is reported in scheduler steps and injected faults instead"
+}
+
 type evidence struct {
 	PropertyID  string         `json:"property_id"`
 	Tier        string         `json:"tier"`
@@ -709,7 +717,7 @@ func aggregate(cfg *propCfg, tier string, seed uint64, b *build, outs []shardOut
 		"build_s":             buildS,
 		"shards":              len(outs),
 		"components":          cfg.Components,
-		"simulated_time":      "none: no property of this repository depends on a clock; reach is reported in scheduler steps and injected faults instead",
+		"simulated_time":      simulatedTime(cfg, stats),
 		"notes":               notes,
 		"known_findings_hit":  knownLines,
 	}
